@@ -38,7 +38,10 @@ const MAX_SOLS: usize = 600;
 
 fn tok() -> BoxedStrategy<T> {
     prop_oneof![
-        8 => (0usize..3).prop_map(|i| atom(ALPHA[i])),
+        // biased towards the first letter so that random grammars accept more of the inputs
+        5 => Just(atom("a")),
+        2 => Just(atom("b")),
+        1 => Just(atom("c")),
         2 => (0u32..5).prop_map(T::Var),
     ]
     .boxed()
@@ -46,7 +49,7 @@ fn tok() -> BoxedStrategy<T> {
 
 fn arg_term() -> BoxedStrategy<T> {
     let leaf = prop_oneof![
-        5 => (0u32..5).prop_map(T::Var),
+        9 => (0u32..5).prop_map(T::Var),
         3 => (0usize..3).prop_map(|i| atom(ALPHA[i])),
         2 => (0i64..4).prop_map(int),
     ];
@@ -72,7 +75,7 @@ fn goal() -> BoxedStrategy<Goal> {
     prop_oneof![
         6 => ((0u32..5).prop_map(T::Var), arg_term()).prop_map(|(a, b)| Goal::Unify(a, b)),
         1 => (arg_term(), arg_term()).prop_map(|(a, b)| Goal::Unify(a, b)),
-        2 => (arg_term(), arg_term()).prop_map(|(a, b)| Goal::Eq(a, b)),
+        1 => (arg_term(), arg_term()).prop_map(|(a, b)| Goal::Eq(a, b)),
         2 => (arg_term(), arg_term()).prop_map(|(a, b)| Goal::Neq(a, b)),
         2 => (num_term(), arith()).prop_map(|(a, b)| Goal::Is(a, b)),
         // no compound expression inside a comparison: the clause compiler lets the inlined evaluation of e.g.
@@ -635,7 +638,7 @@ impl Prop for C39 {
     }
     fn run_shard(&self, cfg: &ShardCfg) -> ShardResult {
         let mut d = Driver::new(cfg, "C39");
-        let n = cfg.share(cfg.tier.pick(2_500, 120_000));
+        let n = cfg.share(cfg.tier.pick(4_000, 160_000));
         d.run("grammar", 0, n, 60, case_strategy(), &mk_env, &check);
         d.finish()
     }
